@@ -45,7 +45,10 @@ class Lock:
 # regeneration (tie R)
 
 def regen(log):
-    """Regenerate lean/Zrnt/Gen/* from /repo's working tree. Returns list of (name, ok, output)."""
+    """Regenerate lean/Zrnt/Gen/* from /repo's working tree.
+    Returns list of (name, ok, output) with names `go2lean:<LeanFunction>` and `extract:<table>`
+    (plus `go2lean:build` / `extract:build` when a tool itself does not build).
+    A property is charged only for the items it lists under `regen` in its props entry."""
     res = []
     os.makedirs(BUILD, exist_ok=True)
     point_gomod_at_repo()
@@ -57,13 +60,29 @@ def regen(log):
             res.append((name + ":build", False, out))
             continue
         if name == "go2lean":
-            rc, out = sh([os.path.join(BUILD, name), REPO, os.path.join(GO, "cmd/go2lean/funcs.json"),
-                          os.path.join(LEAN, "Zrnt/Gen/GoFuns.lean")])
+            target = os.path.join(LEAN, "Zrnt/Gen/GoFuns.lean")
+            rc, out = sh([os.path.join(BUILD, name), REPO, os.path.join(GO, "cmd/go2lean/funcs.json"), target])
+            st = {}
+            try:
+                st = json.load(open(target + ".status.json"))
+            except Exception:
+                pass
+            if rc != 0 or not st:
+                res.append(("go2lean:build", False, out))
+            for fn, msg in sorted(st.items()):
+                res.append((f"go2lean:{fn}", msg == "ok", msg))
         else:
             rc, out = sh([os.path.join(BUILD, name), REPO, os.path.join(LEAN, "Zrnt/Gen")])
-        res.append((name, rc == 0, out))
-    for n, ok, out in res:
-        log(f"regen {n}: {'ok' if ok else 'FAILED'}" + ("" if ok else "\n" + out[-2000:]))
+            seen = False
+            for line in out.splitlines():
+                m = re.match(r"TABLE (\S+) (ok|FAIL)(.*)", line)
+                if m:
+                    seen = True
+                    res.append((f"extract:{m.group(1)}", m.group(2) == "ok", m.group(3).strip() or out[-1500:]))
+            if rc != 0 and not seen:
+                res.append(("extract:build", False, out))
+    bad = [n for n, ok, _ in res if not ok]
+    log(f"regen: {len(res) - len(bad)}/{len(res)} items ok" + (f"; FAILED: {bad}" if bad else ""))
     return res
 
 
@@ -139,18 +158,36 @@ def grep_forbidden(paths):
 # ---------------------------------------------------------------------------------------------
 # harness / zmodel correspondence
 
-def build_harness(log):
+def build_harness(log, components=None, tag="all"):
+    """Build the harness against REPO. If the full build fails (some component no longer compiles
+    against a changed /repo) and `components` is given, build a harness with only those components,
+    so that an API change in one area does not take every other property's check down with it.
+    Returns (ok, output, path_of_binary)."""
     point_gomod_at_repo()
     rc, out = sh(["go", "build", "-tags", "verif", "-o", HARNESS, "./cmd/harness"], cwd=GO, env=GOENV, timeout=1800)
-    if rc != 0:
+    if rc == 0:
+        return True, out, HARNESS
+    if not components:
         log("harness build failed:\n" + out[-4000:])
-    return rc == 0, out
+        return False, out, HARNESS
+    only = os.path.join(GO, "cmd", "only", tag)
+    os.makedirs(only, exist_ok=True)
+    subprocess.run(["cp", os.path.join(GO, "cmd/harness/main.go"), os.path.join(only, "main.go")])
+    with open(os.path.join(only, "registry.go"), "w") as f:
+        f.write("package main\n\nimport (\n" + "".join(f'\t_ "verifharness/internal/{c}"\n' for c in components) + ")\n")
+    binp = os.path.join(BUILD, f"harness_{tag}")
+    rc2, out2 = sh(["go", "build", "-tags", "verif", "-o", binp, "./cmd/only/" + tag], cwd=GO, env=GOENV, timeout=1800)
+    if rc2 != 0:
+        log("harness build failed (also with only this property's components):\n" + out2[-4000:])
+        return False, out2, binp
+    log("full harness build failed for another component; using a harness restricted to " + ",".join(components))
+    return True, out, binp
 
 
-def run_go(mode, ops_path, out_path, timeout=3600, env=None):
+def run_go(mode, ops_path, out_path, timeout=3600, env=None, binary=None):
     e = dict(os.environ, GOMEMLIMIT="12GiB")
     if env: e.update(env)
-    rc, out = sh([HARNESS, "exec", mode, "-in", ops_path, "-out", out_path], timeout=timeout, env=e)
+    rc, out = sh([binary or HARNESS, "exec", mode, "-in", ops_path, "-out", out_path], timeout=timeout, env=e)
     return rc, out
 
 
